@@ -101,6 +101,12 @@ def joinPathVersionInts : List Nat :=
 def joinPathVersionBody : String :=
   "(block (if _ (|| (|| (== v1 \"\") (== v1 \"v0\")) (== v1 \"v1\")) (block (return v0)) _) (return (call (. fmt Sprintf) \"%v@%v\" v0 v1)))"
 
+def loadConfigFileReadCalls : List String :=
+  ["os.ReadFile"]
+
+def loadConfigFileBody : String :=
+  "(block (:= (v1 v2) ((call (. os ReadFile) v0))) (if _ (!= v2 nil) (block (return nil v2)) _) (return (call LoadConfigBytes v1)))"
+
 def structTags : List String :=
   ["Path toml:\"path,inline\"", "Version toml:\"version,inline\"", "Name toml:\"name,omitempty\"", "Version toml:\"version,omitempty\"", "Ignore toml:\"ignore,omitempty\"", "Requirements toml:\"requirements,omitempty\""]
 
